@@ -46,7 +46,7 @@ def load_known(prop):
 # ------------------------------------------------------------------------------------------------
 # process pool: one forked child per task, hard wall limit
 
-def run_pool(tasks, jobs, on_result):
+def run_pool(tasks, jobs, on_result, should_stop=lambda: False):
     """tasks: list of dict(cond, mode, want, timeout).  Calls on_result(task, result) in the parent;
     on_result may return a list of new tasks to schedule."""
     from vf import worker
@@ -54,6 +54,10 @@ def run_pool(tasks, jobs, on_result):
     queue = list(tasks)
     running = []  # (proc, conn, task, t0, limit)
     while queue or running:
+        if should_stop():
+            for p, conn, task, t0, limit in running:
+                p.kill()
+            return
         while queue and len(running) < jobs:
             task = queue.pop(0)
             parent, child = ctx.Pipe(duplex=False)
@@ -115,6 +119,8 @@ def main(argv=None):
     ap.add_argument("--only", default=None, help="substring filter on condition ids (debugging; evidence is not written)")
     ap.add_argument("--list", action="store_true")
     ap.add_argument("--no-witness", action="store_true")
+    ap.add_argument("--failfast", action="store_true", default=bool(os.environ.get("VERIF_FAILFAST")),
+                    help="calibration aid: stop at the first refutation that replays on the real code (no evidence is written)")
     args = ap.parse_args(argv)
     prop = args.prop.upper()
     seed = int(os.environ.get("VERIF_SEED", "0") or 0)
@@ -184,9 +190,17 @@ def main(argv=None):
     n_total = len(tasks)
     done = [0]
 
+    early = []
+
     def on_result(task, res):
         done[0] += 1
         cid = task["cond"]["id"]
+        if args.failfast and res["state"] == "REFUTED" and res.get("cex") is not None and not early:
+            rp = os.path.join(replay_dir, "%s-ff.json" % prop)
+            json.dump({"property": prop, "cond": task["cond"], "args": res["cex"], "engine": "E1"}, open(rp, "w"), indent=1)
+            out = run_replay(rp)
+            if out["status"] == "violated" and (task["mode"] == "prove" or out["tag"] != task.get("want")):
+                early.append((cid, rp, out["detail"]))
         if task["mode"] == "prove":
             if res["state"] in ("UNKNOWN",) and task["attempt"] == 1 and task["cond"].get("retry"):
                 log("  .. %s UNKNOWN after %.0fs (%d paths); retrying with doubled budget" % (cid, res["wall_s"], res["paths"]))
@@ -201,7 +215,12 @@ def main(argv=None):
         return None
 
     log("%s tier=%s seed=%d: %d conditions, %d witness twins, %d jobs" % (prop, args.tier, seed, len(conds), len(wt), args.jobs))
-    run_pool(tasks, args.jobs, on_result)
+    run_pool(tasks, args.jobs, on_result, should_stop=lambda: bool(early))
+    if early:
+        cid, rp, detail = early[0]
+        log("VIOLATION property=%s replay=%s   (condition %s: %s) [failfast after %.0fs]" % (
+            prop, os.path.relpath(rp, ROOT), cid, detail, time.time() - t_start))
+        return 1
 
     # 3. judge
     n_conf = 0
